@@ -6,7 +6,7 @@ PROP = dict(
     required_theorems=["C29_block_comment_skipped", "C29_line_comment_skipped", "C29_blank_skipped",
                        "C29_block_comment_transparent", "C29_line_comment_transparent",
                        "C29_comment_insertion_partial", "C29_block_comment_insertion", "C29_line_comment_insertion",
-                       "C29_separator_choice"],
+                       "C29_separator_choice", "C29_toplevel_terminator", "C29_stray_semicolon_rejected"],
     harness_bin="c29",
     # compared observable = the complete token-kind stream incl. payloads of arbitrary programs; the
     # property itself (kinds unchanged by comment insertion, outcome unchanged) is checked directly by the
@@ -19,7 +19,11 @@ PROP = dict(
          "newlines, at the start; text over {letters, `*`, `/`, `**`, `//`, both quotes, `\"\"\"`, backslash, non-ASCII, keywords, "
          "brackets, newlines, `#!`}, never `*/`), newlines doubled/tripled (blank lines, also with trailing blanks), and "
          "separators exchanged (`,`+newline -> newline, `,` -> `,`+newline, top-level newline -> `;`; in generated programs "
-         "`,` / newline / `,`+blank lines / newline+blank lines, trailing separators, `;` vs newline in blocks). Per variant: "
+         "`,` / newline / `,`+blank lines / newline+blank lines, trailing separators, `;` vs newline in blocks), items TERMINATED rather than "
+         "separated (`;`+newline / comment / blank lines / nothing after the LAST top-level item before EOF, trailing `;` before `}`, trailing `,` "
+         "before `}` `)` `]` in match arms, parameter, argument, array and tuple lists), continuation lines (a line break, also comment + "
+         "line break, after binary and prefix operators, `(`, `,`, `[`, `=`), and a top-level family of items, `;` and line breaks in every "
+         "order whose accept/reject verdict is compared with the model of parse_file's item loop (stray `;` must stay rejected). Per variant: "
          "token kinds (with payloads) of the real lexer equal to the original's under comment insertion, outcome and output "
          "of the re-printed program equal to the original's, and the variant's kind stream vs the Lean lexer model. "
          "distinct = distinct variant texts; non-trivial = the variant contains a comment or a changed separator",
@@ -29,6 +33,7 @@ PROP = dict(
         "the re-printer in harness/src/bin/c29.rs keeps the text of every token and gap and only inserts at token boundaries reported by the real lexer",
     ],
     assumptions=[
+        "struct bodies take line breaks only (`,` between fields is rejected by the unchanged parser), enum variants have no separator",
         "a block comment is not placed directly after a `/` token without a space (`//*` reads as a line comment); a line comment is only "
         "placed where the rest of the line holds no token",
         "the separator theorem is about the model of parse_delimited_list with `,` (Abra.Pratt.parseList); `;` in blocks and after "
